@@ -171,9 +171,28 @@ def run(ctx):
             + families.reduction_cases(rnd, 140 * scale, prefix="NR", nullable_p=1.0, funcs=["sum", "prod", "all", "any"], max_rank=3)
             + families.layout_cases(rnd, 120 * scale, prefix="NL", dtypes=NDT, max_rank=3)
             + other_cases(rnd, 240 * scale))
+    dyn = []
+    for i in range(40 * scale):
+        # the mask / nullable condition has run-time extent 1 where the values have extent n, and no extent is known
+        # at trace time: the result must still carry one null flag per element
+        d = rnd.choice(["int64", "float64", "int32"])
+        r = rnd.randint(1, 2)
+        vs = [rnd.choice([2, 3, 4]) for _ in range(r)]
+        ms = [1 if rnd.random() < 0.6 else n_ for n_ in vs]
+        v = ops.tensor(rnd, d, vs, "small")
+        m = ops.tensor(rnd, "bool", ms)
+        form, orc = rnd.choice([("out = nda.make_nullable(v, m)", "out = mk(v, np.broadcast_to(m, v.shape))"),
+                                ("r_ = nda.make_nullable(v, m); out = r_ + 1", "out = mk(v + 1, np.broadcast_to(m, v.shape))"),
+                                ("c_ = nda.make_nullable(m, m); out = ndx.where(c_, v, v + 1)", "out = mk(np.where(np.broadcast_to(m, v.shape), v, v + 1), np.broadcast_to(m, v.shape))")])
+        c = families.mkcase(f"ND-{i}", {"v": v, "m": m}, form, orc, {"func": "make_nullable-dynamic", "dtype": "n" + d, "dclass": family.dclass("n" + d)}, rnd)
+        c["lazy_subsets"] = [{"names": ["v", "m"], "sigs": {"v": [None] * r, "m": [None] * r}}]
+        c["keep_lazy"] = True
+        dyn.append(c)
+    base += dyn
     cases = []
     for c in base:
-        c["lazy_subsets"] = c["lazy_subsets"][:1] if rnd.random() < 0.35 else []
+        if not c.get("keep_lazy"):
+            c["lazy_subsets"] = c["lazy_subsets"][:1] if rnd.random() < 0.35 else []
         if c["id"].startswith(("NE", "NL")):
             c["plain"] = True
         for w in (0, 1):
@@ -215,6 +234,8 @@ def run(ctx):
                     why = ops.cmp_arrays(ref, run_["ok"], 1e-5, 1e-7)
                     if why:
                         ctx.finding(family.attrs_of(c, "traced-" + why, "traced"), f"{c['meta']['func']} on {c['meta']['dtype']}: exported model differs from eager ({why})", family.replay_of(c, r, "traced"))
+                elif ref is not None and "raise" in run_:
+                    ctx.finding(family.attrs_of(c, "run-raise", "traced"), f"{c['meta']['func']} on {c['meta']['dtype']}: evaluates eagerly but the exported model fails at run time ({str(run_.get('msg'))[:140]})", family.replay_of(c, r, "traced"))
     # payload independence: variant 0 vs variant 1, masked payloads of the OUTPUT erased
     for c in base:
         if c["meta"]["func"] in SKIP_PAYLOAD:
